@@ -285,7 +285,8 @@ CLAIM = {
             "W(update) ⊆ R(merge, other). This is the structural precondition for aggregates to be independent of how rows are split over "
             "partitions; the numeric correctness of the combination is a value question and is not decided. Plus a guard rule: a merge that "
             "compares with or takes the other state's value does so only behind the other state's validity flag (an empty partial state "
-            "holds the type's default value, not a minimum). Plus a simultaneity rule over all 25 merge implementations: a field of self that has already been overwritten is never read to compute a different field (the merged state is a function of the two input states; e.g. the Welford delta must use the input mean).",
+            "holds the type's default value, not a minimum). Plus a simultaneity rule over all 25 merge implementations: a field of self that has already been overwritten is never read to compute a different field (the merged state is a function of the two input states; e.g. the Welford delta must use the input mean)."
+            " Plus AGGFILTER (the aggregate FILTER clause is translated or refused, never dropped), NANORDER (the min/max replace decision consults self-comparison, so a NaN's arrival order does not matter) and HASHCANON (float hashing canonicalises the sign of zero).",
     "note": "trusted: rustc MIR; a &mut borrow of a field counts as a write, any mention as a read; whole-state operations (swap/assign) cover all fields",
     "technique": "static analysis: MIR field-effect summaries + sibling agreement (rustc_private driver)",
 }
